@@ -204,6 +204,32 @@ class World:
     def start(self):
         self.h.start()
 
+    # ----- configuration changed while the node runs (public API: add_peer / add_application on a started node)
+    def late_peer(self, name, realm=REALM, ip=None, timers=None, **flags):
+        sctp = self.transport == "sctp"
+        ip = ip or f"10.1.0.{len(self.peers) + 1}"
+        uri = f"aaa://{name}:3868" + (";transport=sctp" if sctp else "")
+        p = self.node.add_peer(uri, realm, ip_addresses=[ip], is_persistent=flags.get("persistent", False),
+                               is_default=flags.get("default", False))
+        for k, v in (timers or {}).items():
+            setattr(p, k, v)
+        self.peers[name] = p
+        self.cfg.setdefault("peers", []).append({"name": name, "realm": realm, "ip": ip, "timers": timers or {}, **flags})
+        return p
+
+    def late_app(self, tag, app_id, peer_names, kind="basic", auth=True, acct=False, behaviour="answer", realms=None,
+                 max_threads=0):
+        cls = RecThreadingApp if kind == "threading" else RecApp
+        kw = dict(auth=auth, acct=acct, behaviour=behaviour)
+        if cls is RecThreadingApp:
+            kw["max_threads"] = max_threads
+        app = cls(self.h, tag, app_id, **kw)
+        self.h.add_app(app, [self.peers[n] for n in peer_names], realms)
+        self.apps[tag] = app
+        self.cfg.setdefault("apps", []).append({"tag": tag, "id": app_id, "auth": auth, "acct": acct, "kind": kind,
+                                                "peers": list(peer_names), "realms": realms, "behaviour": behaviour})
+        return app
+
     def ids(self):
         self.seq += 1
         return self.seq, 0x50000 + self.seq
